@@ -189,7 +189,7 @@ pub fn run(args: &Args, prop: &str) {
         // refused command arriving at every position (parent a head / an interior command; first
         // command of a fresh perspective or not): whatever head set the transaction commits, queries
         // and the action that collapses it must agree.
-        let nmax = if args.tier == Tier::Thorough { 6 } else { 5 };
+        let nmax = 5;
         let dags: Vec<Dag> = crate::props::reject::universes(4, nmax, 1, args.tier == Tier::Thorough);
         let cuts: &[Cut] = if args.tier == Tier::Thorough { &[Cut::None, Cut::Batch, Cut::Flush, Cut::Commit] } else { &[Cut::None, Cut::Batch] };
         let filter: crate::props::simrun::Filter = |c, _| matches!(c, "action-view" | "lazy-merge-view" | "action-parent" | "hello-vs-collapse" | "hello");
